@@ -581,7 +581,36 @@ static void run_sg(const sg::Spec& sp_, Stats& st) {
 	std::string keybase = "sg:" + sp_.ver + ":" + sg::ATTACH[sp_.attach];
 	std::string what = "scene graph " + sg::spec_str(sp_);
 	if (A.prop == "C01") c01_file_checks(F, keybase, what, cj, st);
-	else if (A.prop == "C02") c02_file_checks(F, keybase, what, cj, st);
+	else if (A.prop == "C02") {
+		c02_file_checks(F, keybase, what, cj, st);
+		// the same histories on the model as BUILT through the API (never loaded): its values have not been through
+		// the file format yet, so a save that writes rounded or normalised values back into the model shows here
+		bat::Opt full;
+		full.index_free = true; // the first save of an Oblivion model adds the derived tangent-space block: the block list is not logical content
+		full.derived_blocks = false;
+		full.lazy_getters = false;
+		for (const char* h : {"R", "RR", "D", "DR"}) {
+			NifFile m;
+			if (!sg::build(sp_, m)) break;
+			std::string before = bat::model_text(m, full);
+			bool seenDefault = false;
+			for (const char* op = h; *op; op++) {
+				bool firstDefault = *op == 'D' && !seenDefault;
+				if (*op == 'D') seenDefault = true;
+				s1::save(m, *op == 'R');
+				st.add("saves_of_api_built_models");
+				std::string after = bat::model_text(m, full);
+				if (firstDefault) { before = after; continue; } // pruning / sorting / bounds: compared from here on
+				if (after != before) {
+					st.violation(keybase + ":api-built-model-changed-by-save",
+								 vf::strf("%s: history %s on the model as built through the API: query results differ after save #%d: %s", what.c_str(), h, (int) (op - h) + 1,
+										  first_diff(before, after).c_str()),
+								 J(cj).set("history", h).set("api_built", true));
+					break;
+				}
+			}
+		}
+	}
 	else if (A.prop == "C07") { st.add("files_checked"); c07_file_checks(F, keybase, what, cj, st, false); }
 }
 
